@@ -56,7 +56,13 @@ func c11ExecBolt(f []string) string {
 		first = 6
 	}
 	var vals []string
+	extraEmpty := false
 	for _, w := range f[first:] {
+		if w == "E" {
+			// an extra entity whose name is the empty string (its id is "~E": the empty string cannot be a key)
+			extraEmpty = true
+			continue
+		}
 		vals = append(vals, fromWire(w))
 	}
 	dir, err := os.MkdirTemp("", "verif-*")
@@ -78,6 +84,13 @@ func c11ExecBolt(f []string) string {
 		for _, v := range vals {
 			b := base.GetOrCreatePath(v)
 			b.SetString("name", v, nil)
+			if b.Err != nil {
+				return b.Err
+			}
+		}
+		if extraEmpty {
+			b := base.GetOrCreatePath("~E")
+			b.SetString("name", "", nil)
 			if b.Err != nil {
 				return b.Err
 			}
@@ -105,7 +118,11 @@ func c11ExecBolt(f []string) string {
 			got[id] = true
 		}
 		var b strings.Builder
-		for _, v := range vals {
+		ids2 := vals
+		if extraEmpty {
+			ids2 = append(append([]string{}, vals...), "~E")
+		}
+		for _, v := range ids2 {
 			if got[v] {
 				b.WriteByte('1')
 			} else {
